@@ -130,7 +130,7 @@ def designs(tier):
     from examples.ex02_cksum.ChecksumRTL import StepUnit
     return StepUnit()
   add('ex02.StepUnit', step)
-  add('ex02.ChecksumRTL', cksum)
+  add('ex02.ChecksumRTL', cksum, cycles=(12 if not th else 40))      # (128-bit nets: the driver evaluates per target bit, quadratic in the width)
   def proc_piece(name):
     def f():
       import importlib
@@ -148,7 +148,7 @@ def designs(tier):
   add('ex03.ProcDpath', proc_piece('ProcDpath'), [(r'op2_sel_D$', 3), (r'wb_result_sel_M$', 3)], cycles=(20 if not th else 60), reset=1,
       gen=[(r'imemresp_data$', inst)])
   add('ex03.ProcCtrl', proc_piece('ProcCtrl'), cycles=(30 if not th else 80), reset=2, gen=[(r'inst_D$', inst)])
-  add('ex03.ProcRTL', proc_piece('ProcRTL'), cycles=(30 if not th else 120), reset=2, gen=[(r'imem\.resp\.msg$', inst)])
+  add('ex03.ProcRTL', proc_piece('ProcRTL'), cycles=(24 if not th else 120), reset=2, gen=[(r'imem\.resp\.msg$', inst)])
   # --- more of the library: en/rdy one- and two-entry queues, ROMs (constant nets), the checksum accelerator, processor + accelerator
   from pymtl3.stdlib.queues import enrdy_queues as eq
   from pymtl3.stdlib.mem import ROMRTL as rom
